@@ -1181,7 +1181,7 @@ func TestCeremony(t *testing.T) {
 		curves = thoroughCurves()
 	}
 	g := genCase(curves, 10, 16)
-	rec.Check(t, "mpc", ev.N(48, 640), func(rt *rapid.T) {
+	rec.Check(t, "mpc", ev.N(48, 1600), func(rt *rapid.T) {
 		c := g.Draw(rt, "case")
 		o, c := runMin(c, rec)
 		rec.Report(rt, "mpc", c, o)
